@@ -579,6 +579,12 @@ void DocumentBuilder::instance_name_end(const char* name, size_t arguments)
             }
         }
     }
+    /* In case of failure the line is still given its name, so that no instance line without a symbol stays in
+     * the template (instance_name reports a name that is not the name of a template).
+     */
+    if (currentInstanceLine != nullptr && currentInstanceLine->uid == symbol_t()) {
+        instance_name(name);
+    }
     fragments.pop(arguments);
 }
 
